@@ -6,7 +6,7 @@ META = {
                    "directions before an op is registered; a task is lowered once) and of the executor's gating "
                    "(EX1–EX5: enqueue only at waiting_on==0 after the decrement, start only under exe_deps_succeeded(), "
                    "SUCCEEDED only after finish_execution returned) on every path of the CFGs. Decides the structural "
-                   "necessary conditions listed in DESIGN §4.C01, not the run-time ordering itself.",
+                   "necessary conditions listed in DESIGN §4.C01, not the run-time ordering itself. The exit status a dependency is given is that of its own reaped pid, from the single reaper (RT10, SG8, INF1).",
     "rules": ["PL1", "PL2", "PL3", "PL10", "W1(planner)", "PL5", "EX1", "EX2", "EX3", "EX4", "EX5", "EX6", "SGc", "RT1", "RT10", "SG8", "INF1"],
     "assumptions": ["CPython statement semantics", "an op leaves the in-flight set only when its own pid was reaped (C09)",
                     "hand argument of DESIGN §4.C01 that the rules imply the ordering by induction on the op graph"],
